@@ -39,14 +39,15 @@ def build_design(s, shape, gated, enw=1, en_src='input', late=False):
     a = s.wire('a', w)
     ins = {'a': a}
     en = {}
-    info = {'ins': ins, 'en': en, 'gated_boxes': [], 'pending': []}
+    info = {'ins': ins, 'en': en, 'gated_boxes': [], 'pending': [], 'drvname': {}}
 
-    def gate(box, name, enable_wire, base=None):
+    def gate(box, name, enable_wire, base=None, drvname=None):
+        info['drvname'][name] = drvname or name
         if gated and late:
             # the driver is assigned only after a first simulator has been obtained (see run)
-            info['pending'].append((box, name, enable_wire))
+            info['pending'].append((box, drvname or name, enable_wire))
         elif gated:
-            box.clockDriver = ClockDriver(name, base=(base.clockDriver if base is not None else s.clockDriver), enable=enable_wire)
+            box.clockDriver = ClockDriver(drvname or name, base=(base.clockDriver if base is not None else s.clockDriver), enable=enable_wire)
         en[name] = enable_wire
         info['gated_boxes'].append((name, box))
 
@@ -159,7 +160,7 @@ def build_design(s, shape, gated, enw=1, en_src='input', late=False):
         src = [w_ for n_, w_ in box._wires.items() if n_.startswith('q')][0]
         q1 = s.wire('q1', src.getWidth())
         Reg(s, 'r1', src, q1)
-    elif shape == 'three':
+    elif shape in ('three', 'three-same-name'):
         last = q0
         for k in range(3):
             e = s.wire('en%d' % k, 1)
@@ -169,7 +170,8 @@ def build_design(s, shape, gated, enw=1, en_src='input', late=False):
             def body(b, last=last, o=o):
                 Reg(b, 'g', last, o)
             box = D.Box(s, 'box%d' % k, {'i': last, 'en': e}, {'o': o}, body)
-            gate(box, 'gck%d' % k, e)
+            # three-same-name: three distinct driver objects that all carry the name 'gck' (a reusable module creating its own driver)
+            gate(box, 'gck%d' % k, e, drvname=('gck' if shape == 'three-same-name' else None))
             last = o
         q1 = s.wire('q1', w)
         Reg(s, 'r1', last, q1)
@@ -238,11 +240,12 @@ def gate_task(p, cfg, rec):
     for leaf in s.allLeaves():
         dn = domain_of(leaf, info)
         drv = getObjectClockDriver(leaf)
-        p.structural('driver lookup %s' % leaf.getFullPath(), drv.name == (dn or 'clk'),
-                     detail={'leaf': leaf.getFullPath(), 'driver': drv.name, 'expected': dn or 'clk'})
+        want = info['drvname'].get(dn, dn) if dn else 'clk'
+        p.structural('driver lookup %s' % leaf.getFullPath(), drv.name == want,
+                     detail={'leaf': leaf.getFullPath(), 'driver': drv.name, 'expected': want})
         if leaf.isClockable():
-            grp = [d.name for d, cds in sim.clockDrivers.items() if any(c is leaf for c in cds.clockables)]
-            p.structural('simulator group %s' % leaf.getFullPath(), grp == [dn or 'clk'], detail={'groups': grp})
+            grp = [getattr(d, 'name', d) for d, cds in sim.clockDrivers.items() if any(c is leaf for c in cds.clockables)]
+            p.structural('simulator group %s' % leaf.getFullPath(), grp == [want], detail={'groups': grp})
     # cells per domain: leaf attributes and the wires driven by the leaf
     for leaf in s.allLeaves():
         if not leaf.isClockable():
@@ -339,7 +342,7 @@ def multi_task(p, cfg, rec):
 def cfgs(tier):
     quick = tier == 'quick'
     out = []
-    for shape in ('block', 'fsm', 'ancestor', 'nested', 'nested-chain', 'three'):
+    for shape in ('block', 'fsm', 'ancestor', 'nested', 'nested-chain', 'three', 'three-same-name'):
         out.append(('%s enable=input' % shape, {'shape': shape, 'enw': 1, 'en_src': 'input'}))
     out.append(('block enable=2-bit input', {'shape': 'multibit', 'enw': 2, 'en_src': 'input'}))
     out.append(('block enable=register inside the gated domain', {'shape': 'inside', 'enw': 1, 'en_src': 'inside'}))
